@@ -32,7 +32,7 @@ type CaseC03 struct {
 }
 
 func genC03(rt *rapid.T) CaseC03 {
-	kinds := []string{"nonwriter", "nonwriter", "stolen-key-field", "local-write", "local-write"}
+	kinds := []string{"nonwriter", "nonwriter", "nonwriter-otherlog", "stolen-key-field", "local-write", "local-write"}
 	if !isKnown(keyForgedAuthor) {
 		kinds = append(kinds, "forged-id", "forged-identity", "forged-id", "forged-identity")
 	}
@@ -42,7 +42,7 @@ func genC03(rt *rapid.T) CaseC03 {
 		Authors: rapid.IntRange(1, 2).Draw(rt, "authors"),
 		PreSync: rapid.Bool().Draw(rt, "presync"),
 		Kind:    rapid.SampledFrom(kinds).Draw(rt, "kind"),
-		Route:   rapid.SampledFrom([]string{"sync", "topic", "direct", "ancestor"}).Draw(rt, "route"),
+		Route:   rapid.SampledFrom([]string{"sync", "topic", "direct", "ancestor", "ancestor-refs"}).Draw(rt, "route"),
 		Honest:  rapid.IntRange(0, 2).Draw(rt, "honest"),
 		Chain:   rapid.IntRange(1, 3).Draw(rt, "chain"),
 	}
@@ -125,11 +125,18 @@ func execC03(c CaseC03) *Outcome {
 	}
 	for i := 0; i < c.Chain; i++ {
 		payload, _ := opPayload(c.Type, hostileMarker+"-key", []byte(fmt.Sprintf("%s-%s-%d", hostileMarker, c.Kind, i)))
-		e, err := env.craft(ctx, env.X, cl.Addr, payload, next, t+1+i)
+		logID := cl.Addr
+		if c.Kind == "nonwriter-otherlog" {
+			logID = cl.Addr + "-the-attackers-own-db"
+		}
+		e, err := env.craft(ctx, env.X, logID, payload, next, t+1+i)
 		if err != nil {
 			return fail("harness: craft: %v", err)
 		}
 		switch c.Kind {
+		case "nonwriter-otherlog":
+			// honestly signed by the non-writer for a database of its own
+			env.hostile[e.Hash.String()] = fmt.Sprintf("non-writer's entry %d written for another database", i)
 		case "nonwriter":
 			// as is: honestly signed by an identity outside the write list
 		case "forged-id":
@@ -144,7 +151,7 @@ func execC03(c CaseC03) *Outcome {
 			e.Identity = copyIdentity(writerID.Filtered())
 			e.Key = append([]byte{}, writerID.PublicKey...)
 		}
-		if c.Kind != "nonwriter" {
+		if c.Kind != "nonwriter" && c.Kind != "nonwriter-otherlog" {
 			if err := env.rehash(ctx, env.X, e); err != nil {
 				return fail("harness: rehash: %v", err)
 			}
@@ -159,7 +166,7 @@ func execC03(c CaseC03) *Outcome {
 		chain = append(chain, e)
 		next = []cid.Cid{e.Hash}
 	}
-	if !restricted && c.Kind != "stolen-key-field" {
+	if !restricted && c.Kind != "stolen-key-field" && c.Kind != "nonwriter-otherlog" {
 		// wildcard list: a properly signed entry by anyone is acceptable; tell the models about it
 		for i, e := range chain {
 			_, op := opPayload(c.Type, hostileMarker+"-key", []byte(fmt.Sprintf("%s-%s-%d", hostileMarker, c.Kind, i)))
@@ -168,12 +175,31 @@ func execC03(c CaseC03) *Outcome {
 	}
 	head := chain[len(chain)-1]
 	route := c.Route
-	if route == "ancestor" && colluder < 0 {
+	if (route == "ancestor" || route == "ancestor-refs") && colluder < 0 {
 		route = "sync"
 	}
 	fetchedBefore := len(cl.W.Peers[env.V].GetLog)
 	canaryRoute := route
 	switch route {
+	case "ancestor-refs":
+		// a valid entry of a colluding writer whose skip references (refs) name the hostile entry
+		payload, op := opPayload(c.Type, "k2", []byte("colluder-refs"))
+		if head.Clock.Time > env.ctime {
+			env.ctime = head.Clock.Time
+		}
+		var cnext []cid.Cid
+		for _, h := range world.Heads(cl.Stores[0]) {
+			cnext = append(cnext, h.GetHash())
+		}
+		e, err := env.craftValidRefs(ctx, payload, cnext, []cid.Cid{head.Hash})
+		if err != nil {
+			return fail("harness: craft colluding entry: %v", err)
+		}
+		env.registerCrafted(e, env.C, op)
+		if err := env.deliver(ctx, "sync", []*entry.Entry{e}); err != nil {
+			return fail("harness: %v", err)
+		}
+		canaryRoute = "sync"
 	case "ancestor":
 		payload, op := opPayload(c.Type, "k2", []byte("colluder"))
 		if head.Clock.Time > env.ctime {
@@ -208,7 +234,7 @@ func execC03(c CaseC03) *Outcome {
 	reached := len(cl.W.Peers[env.V].GetLog) > fetchedBefore
 	o.NonTrivial = reached && len(env.hostile) > 0
 	o.Labels = append(o.Labels, "kind:"+c.Kind, "route:"+route, "list:"+c.List)
-	if !restricted && c.Kind != "stolen-key-field" {
+	if !restricted && c.Kind != "stolen-key-field" && c.Kind != "nonwriter-otherlog" {
 		// the hostile payload is legitimately visible with a wildcard list: only order/replay are checked
 		if _, err := env.tr.checkOrder(v); err != nil {
 			return fail("wildcard list: %v", err)
